@@ -63,6 +63,10 @@ def run(ctx):
         "true branch; D3 in the message loop a suspension point dominates pulling the next message, so nothing runs between the "
         "pause request and the pause. Not decided: interaction with clear_checkpoint (observation O-1).")
     q.per_call_reset(ctx, rm, "C09.D1-flag-cleared-per-call", ["_deferred_pause_requested"])
+    # 'resuming from that pause replays nothing': the checkpoint at which the deferred pause is taken really empties the replay cache
+    from . import c04
+
+    c04.reset_skipped_only_without_checkpoint(ctx, rm, "C09.D2-checkpoint-empties-the-cache")
     # D1
     q.check_writers(ctx, "C09.D1-flag-writers", repo, "_deferred_pause_requested",
                     {f"{CLS}.__init__": "initially False", f"{CLS}._clear_call_cache": "cleared when the next plan starts",
